@@ -37,8 +37,8 @@ func c08Profile(ac bool) func(c *sim.RunCtx) {
 			PutWeight:    5, GetWeight: 6, FindWeight: 3, CompWeight: 0,
 		}
 		corruptRate := []int{20, 60, 150}[t.Choose(3)] // per 10000 steps
-		before := gatherMetrics().indexDiscards("sim")
-		discards := func() bool { return gatherMetrics().indexDiscards("sim") != before }
+		before := indexDiscardCount()
+		discards := func() bool { return indexDiscardCount() != before }
 		type corruption struct {
 			Dev int64
 			Seq int
